@@ -207,7 +207,7 @@ def _run_checked(prop, part, res, case):
             res.known_hits[json.dumps(v.signature)] += 1
             res.evaluations += 1
             return False
-        res.violation = (case, v.signature, v.message)
+        res.violation = (getattr(v, "case", None) or case, v.signature, v.message)
         return True
     _record(res, part, case, info)
     return False
